@@ -96,6 +96,14 @@ def check(c, viol, counters):
                     if any(i1 in op.inputs + op.outputs and i2 in op.inputs + op.outputs for op in dyn):
                         sfx = ":input-and-output-of-a-run-time-shaped-reshape"
                 if not sfx:
+                    # a tensor that only links two CPU RESHAPEs with run-time shapes (output of one, sole input of the other): it gets no live range at all and
+                    # stays at offset 0
+                    for ti, oo in ((i1, o1), (i2, o2)):
+                        prod = [op for op in dyn if ti in op.outputs]
+                        cons = [op for op in sg.ops if ti in op.inputs]
+                        if oo == 0 and prod and cons and all(op in dyn and op.inputs[0] == ti for op in cons) and ti not in sg.outputs:
+                            sfx = ":tensor-between-two-run-time-shaped-reshapes-never-allocated"
+                if not sfx:
                     for (ti, dd, uu), (tj, dj, uj) in (((i1, d1, u1), (i2, d2, u2)), ((i2, d2, u2), (i1, d1, u1))):
                         if dd == -1 and ti in sg.inputs:
                             first = min([k for k, op in enumerate(sg.ops) if ti in op.inputs] or [len(sg.ops) if ti in sg.outputs else -1])  # a pass-through input is "read" when the outputs are collected
